@@ -197,6 +197,10 @@ fn show_ctxs(c: &[Ctx]) -> String {
 }
 
 struct Sim {
+    /// kinds of UNDECODABLE elements the next signature payload is made of instead of descriptors
+    /// (0 = a u32, 1 = void, 2 = a symbol, 3 = an address, 4 = a vector): the line carries `junk=`; to the
+    /// model and the monitor such a payload holds no descriptor at all (`sig=e`)
+    junk: Vec<u32>,
     e: Env,
     ctl: Address,
     accts: Vec<Address>, // index 1..=NACC at [i-1]
@@ -226,7 +230,7 @@ impl Sim {
         let ev: SVec<Address> = SVec::from_iter(&e, executors.iter().map(|&i| accts[i - 1].clone()));
         let ad: Option<Address> = admin.map(|i| accts[i - 1].clone());
         let ctl = e.register(TimelockController, (min_delay, pv, ev, ad));
-        Sim { e, ctl, accts, target, defs: vec![], hashes: vec![], now: start, nonce: 1 }
+        Sim { junk: vec![], e, ctl, accts, target, defs: vec![], hashes: vec![], now: start, nonce: 1 }
     }
     fn addr(&self, i: usize) -> Address {
         match i {
@@ -283,7 +287,26 @@ impl Sim {
     fn meta(&self, m: &MetaD) -> OperationMeta {
         OperationMeta { predecessor: self.id(&m.p), salt: lit(&self.e, m.s), executor: m.e.map(|i| self.addr(i)) }
     }
+    fn junk_suffix(&self) -> String {
+        if self.junk.is_empty() { String::new() } else { format!(" junk={}", join(&self.junk)) }
+    }
     fn sig_val(&self, metas: &[MetaD]) -> Val {
+        if !self.junk.is_empty() {
+            // a payload whose elements do not decode as `OperationMeta` (a host vector is typed element by
+            // element only when it is read)
+            let e = &self.e;
+            let mut v: SVec<Val> = SVec::new(e);
+            for k in &self.junk {
+                v.push_back(match k {
+                    0 => 7u32.into_val(e),
+                    1 => ().into_val(e),
+                    2 => Symbol::new(e, "meta").into_val(e),
+                    3 => self.addr(3).into_val(e),
+                    _ => SVec::<u32>::from_array(e, [1, 2, 3]).into_val(e),
+                });
+            }
+            return v.into_val(e);
+        }
         let mut v: SVec<OperationMeta> = SVec::new(&self.e);
         for m in metas {
             v.push_back(self.meta(m));
@@ -495,7 +518,7 @@ impl Sim {
             6 => format!("tc renrole a={}", show_args(a)),
             _ => format!("tc renounce a={}", show_args(a)),
         };
-        t.op(&format!("{} sig={} auth={}", line, show_sig(sig), show_toks(toks)));
+        t.op(&format!("{} sig={} auth={}{}", line, show_sig(sig), show_toks(toks), self.junk_suffix()));
         let argv = self.vals(a);
         let ok = self.invoke(fn_name(f), argv, sig, toks, Some((f, a.to_vec())));
         self.obs(t, ok, "");
@@ -516,7 +539,7 @@ impl Sim {
     }
     /// `__check_auth` called directly with a crafted payload
     fn check(&mut self, t: &mut Trace, metas: &[MetaD], ctxs: &[Ctx], toks: &[Tok]) -> bool {
-        t.op(&format!("tc check metas={} ctxs={} auth={}", show_sig(&Some(metas.to_vec())), show_ctxs(ctxs), show_toks(toks)));
+        t.op(&format!("tc check metas={} ctxs={} auth={}{}", show_sig(&Some(metas.to_vec())), show_ctxs(ctxs), show_toks(toks), self.junk_suffix()));
         let calls: Vec<(usize, u32, Vec<Arg>)> = ctxs.iter().map(|c| self.ctx_call(c).unwrap_or((8, 99, vec![]))).collect();
         // only the executors' entries: `__check_auth` itself is invoked by hand
         let only_exec: Vec<Tok> = toks.iter().filter(|x| matches!(x, Tok::Exec(..))).cloned().collect();
@@ -672,6 +695,56 @@ fn directed(t: &mut Trace) {
     s.check(t, &[md(Zero, 0, None)], &[Ctx::Def(ext)], &[]);
     s.check(t, &[md(Zero, 0, None)], &[Ctx::Create], &[]);
     s.exec(t, ext, None, &[]);
+    // ---------------------------------------------------------------------------------------
+    // payloads whose elements are not operation descriptors (one per context, so the length matches): nothing
+    // decodes, nothing may be authorized - with nothing scheduled, while the operation waits, when it is ready
+    t.seq("directed undecodable descriptors start=100 min=5 prop=1 exec=- admin=-");
+    let mut s = Sim::new(100, 5, &[1], &[], None);
+    let upd = s.def(t, od(0, 0, &[U(0)], Zero, 0));
+    let g = s.def(t, od(0, 1, &[A(3), S(0), A(0)], Zero, 0));
+    for round in 0..3 {
+        for k in 0..5u32 {
+            s.junk = vec![k];
+            s.admin(t, 0, &[U(0)], &Some(vec![]), &[]);
+            s.admin(t, 1, &[A(3), S(0), A(0)], &Some(vec![]), &[]);
+            s.admin(t, 3, &[A(4), U(5000)], &Some(vec![]), &[]);
+            s.check(t, &[], &[Ctx::Def(upd)], &[]);
+            s.junk = vec![k, (k + 1) % 5];
+            s.check(t, &[], &[Ctx::Def(upd), Ctx::Def(g)], &[]);
+            s.admin(t, 0, &[U(0)], &Some(vec![]), &[]); // one element too many
+            s.junk = vec![];
+        }
+        match round {
+            0 => {
+                s.sched(t, upd, 5, 1, &[Tok::Call(1)]);
+                s.sched(t, g, 5, 1, &[Tok::Call(1)]);
+            }
+            1 => s.advance(t, 5),
+            _ => {}
+        }
+    }
+    s.admin(t, 0, &[U(0)], &Some(vec![md(Zero, 0, None)]), &[]); // the honest call still works
+    // ---------------------------------------------------------------------------------------
+    // an open admin-transfer offer of a self-administered controller can be withdrawn (live_until = 0) only
+    // through the timelock, like every other admin call: not by a stranger, not with an empty payload
+    t.seq("directed withdrawal of an admin offer start=100 min=3 prop=1 exec=- admin=-");
+    let mut s = Sim::new(100, 3, &[1], &[], None);
+    let offer = s.def(t, od(0, 3, &[A(4), U(5000)], Zero, 0));
+    let wd = s.def(t, od(0, 3, &[A(4), U(0)], Zero, 0));
+    s.sched(t, offer, 3, 1, &[Tok::Call(1)]);
+    s.advance(t, 3);
+    s.admin(t, 3, &[A(4), U(5000)], &Some(vec![md(Zero, 0, None)]), &[]); // the offer, through the timelock
+    s.admin(t, 3, &[A(4), U(0)], &None, &[]); // nobody
+    s.admin(t, 3, &[A(4), U(0)], &None, &[Tok::Call(3)]); // a stranger
+    s.admin(t, 3, &[A(4), U(0)], &None, &[Tok::Call(4)]); // the invitee
+    s.admin(t, 3, &[A(4), U(0)], &Some(vec![]), &[]); // empty payload
+    s.admin(t, 3, &[A(4), U(0)], &Some(vec![md(Zero, 0, None)]), &[]); // not scheduled
+    s.sched(t, wd, 3, 1, &[Tok::Call(1)]);
+    s.admin(t, 3, &[A(4), U(0)], &Some(vec![md(Zero, 0, None)]), &[]); // waiting
+    s.advance(t, 3);
+    s.admin(t, 3, &[A(4), U(0)], &None, &[Tok::Call(3)]);
+    s.admin(t, 3, &[A(4), U(0)], &Some(vec![md(Zero, 0, None)]), &[]); // ready: withdrawn
+    s.accept(t, &[Tok::Call(4)]); // nothing to accept any more
     // ---------------------------------------------------------------------------------------
     // predecessor links THROUGH the controller's own schedule_op / execute_op / hash_operation, with a
     // predecessor that differs from the salt (both are 32-byte strings): the successor waits for the
